@@ -136,6 +136,10 @@ class KvsCursor(Cursor):
         return item, KvsCursor(self.all, KVs.krest(self.rest), self.mode)
 
 
+# sequences known to be ordered by string length: ast id -> (ast kept alive, sign)
+SEQ_ORDER = {}
+
+
 class SeqCursor(Cursor):
     """index-based iteration over a z3 sequence.  Ghost `seen` = set of the elements visited so
     far ({seq[j] | j < i}); when the loop runs to completion it equals the set of all elements."""
@@ -166,6 +170,12 @@ class SeqCursor(Cursor):
     def next(self, eng, st):
         # (fact of sequence theory stated explicitly: the element at a valid index is contained)
         st.assume(z3.Contains(self.seq, z3.Unit(self.seq[self.i])))
+        # a list produced by sorted(key=+-len): ground instance of its order for the neighbours
+        # (i-1, i) -- quantified facts over seq.nth are not instantiated reliably by the solvers
+        order = SEQ_ORDER.get(self.seq.get_id())
+        if order is not None and order[0].eq(self.seq):
+            a, b = slen(self.seq[self.i - 1]), slen(self.seq[self.i])
+            st.assume(z3.Implies(self.i > 0, a >= b if order[1] < 0 else a <= b))
         return (Sym(self.seq[self.i], self.ety),
                 SeqCursor(self.seq, self.i + 1, self.ety,
                           z3.Store(self.seen, self.seq[self.i], True), self.limit))
@@ -1107,6 +1117,19 @@ class Intrinsics:
     # ---- intrinsic calls --------------------------------------------------------------------------
     def call(self, eng, st, f, pos, kws, node, starv=None, dstarv=None):
         name = f.name
+        if dstarv is not None:
+            raise Unsupported('**kwargs passed to library call %s' % name)
+        if starv is not None:
+            # *args to a library call: a literal sequence is spliced in; os.path.join over a
+            # symbolic list of names has its own model; anything else is outside the subset
+            # (never dropped silently)
+            if isinstance(starv, (ListV, TupleV)):
+                pos = list(pos) + list(starv.items)
+            elif name == 'os.path.join' and isinstance(starv, Sym) and starv.ty.kind == 'list' \
+                    and len(pos) == 1:
+                return self.join_star(eng, st, pos[0], starv, node)
+            else:
+                raise Unsupported('*args passed to library call %s' % name)
         m = getattr(self, 'i_' + name.replace('.', '_'), None)
         if m is not None:
             return m(eng, st, f, pos, kws, node)
@@ -1236,7 +1259,40 @@ class Intrinsics:
         return [(st, Sym(z3.If(J.kmem(kt, PyV.kvs(d.t)), J.klookup(kt, PyV.kvs(d.t)), dflt), PYV))]
 
     def i_str_format(self, eng, st, f, pos, kws, node):
-        return [(st, Sym(fresh('fmt', StrS), STR, fresh=True))]
+        r = fresh('fmt', StrS)
+        tmpl = getattr(f, 'self_val', None)
+        if isinstance(tmpl, str) and self._plain_name_template(tmpl) and pos and not kws \
+                and all(self._is_int(a) for a in pos):
+            # no separator in the template, every field an integer in d/x/o/b notation, and the
+            # literal part is empty or not made of dots only: the result is a plain file name
+            # (non-empty, no separator, not '.' / '..')
+            st.assume(SIMPLE_NAME(r))
+        return [(st, Sym(r, STR, fresh=True))]
+
+    @staticmethod
+    def _plain_name_template(tmpl):
+        import re
+        if '/' in tmpl or '\\' in tmpl or '{{' in tmpl or '}}' in tmpl:
+            return False
+        fields = re.findall(r'\{([^{}]*)\}', tmpl)
+        lit = re.sub(r'\{[^{}]*\}', '', tmpl)
+        if not fields or not all(re.fullmatch(r'\d*(:0?\d*[xXdob]?)?', x) for x in fields):
+            return False
+        return lit == '' or lit.strip('.') != ''
+
+    def join_star(self, eng, st, base, comps, node):
+        """os.path.join(base, *comps) for a symbolic list of names: the result lies below (or is)
+        base when every component is a plain name"""
+        if isinstance(base, Sym) and base.ty.kind == 'opt':
+            eng.oblige(st, base.ty.sort().is_some(base.t), 'type',
+                       'path-not-None@L%d' % node.lineno, line=node.lineno)
+            base = Sym(base.ty.sort().val(base.t), base.ty.args[0])
+        b = lift(base)
+        r = z3.Function('join_star', StrS, comps.t.sort(), StrS)(b, comps.t)
+        st.assume(ALL_SIMPLE(z3.Empty(comps.t.sort())))
+        st.assume(z3.Implies(ALL_SIMPLE(comps.t), anc(b, r)))
+        st.assume(z3.Implies(z3.Length(comps.t) == 0, r == b))
+        return [(st, Sym(r, STR))]
 
     def i_callable(self, eng, st, f, pos, kws, node):
         v = pos[0]
@@ -1410,8 +1466,12 @@ class Intrinsics:
         if k == 'list':
             ety = rv.ty.args[0]
             if meth == 'append':
-                new = Sym(z3.Concat(rv.t, z3.Unit(self.elem(pos[0], ety))), rv.ty, fresh=rv.fresh,
+                el = self.elem(pos[0], ety)
+                new = Sym(z3.Concat(rv.t, z3.Unit(el)), rv.ty, fresh=rv.fresh,
                           origin=rv.origin)
+                if ety.kind == 'str':
+                    # ground instance of the definition of "every element is a plain name"
+                    st.assume(ALL_SIMPLE(new.t) == z3.And(ALL_SIMPLE(rv.t), SIMPLE_NAME(el)))
                 self.store_back(eng, st, recv_node, recv, new)
                 return [(st, None)]
             if meth == 'clear':
@@ -1498,6 +1558,9 @@ class Intrinsics:
 
 
 exc_name = z3.Function('exc_name', ExcClsS, StrS)
+SIMPLE_NAME = z3.Function('simple_name', StrS, BoolS)
+# every element of a list of names is a plain name (defined by its instances at [] and append)
+ALL_SIMPLE = z3.Function('all_simple_names', z3.SeqSort(StrS), BoolS)
 
 
 def Ctx_for(eng):
